@@ -10,7 +10,7 @@ import (
 	"verif/checker/ssax"
 )
 
-func init() { Registry["C03"] = Spec{Run: runC03} }
+func init() { Registry["C03"] = Spec{Run: runC03, Packages: []string{"txtar"}} }
 
 func runC03(ctx *core.Ctx) {
 	ctx.Trusted = append(ctx.Trusted, "go/types, go/ssa", "library-fact table of the bounds engine (bytes.Index*, HasPrefix/HasSuffix, TrimSpace, len/cap semantics)",
